@@ -4,7 +4,8 @@ TIER="${1:-quick}"
 V="$(cd "$(dirname "$0")" && pwd)"
 cd "$V"
 mkdir -p "$V/.work"
-git -C /repo diff --quiet || { echo "/repo has uncommitted changes"; exit 2; }
+REPO="${VERIF_REPO:-/repo}"
+git -C "$REPO" diff --quiet || { echo "$REPO has uncommitted changes"; exit 2; }
 for p in C01 C02 C03 C04 C05 C06 C07 C08 C09 C10 C11 C12 C13 C14 C15 C16 C17 C18 C19 C20; do
   s=$(date +%s)
   ./check $p $TIER > $V/.work/run_$p.log 2>&1
